@@ -1,7 +1,7 @@
 (* Model/UnitGlue.v — the glue of /repo/src/read/dwarf.rs between the section parsers, function by function:
      Unit::{new, new_with_abbreviations, copy_relocated_attributes, dwo_name},
      Dwarf::{abbreviations (empty cache), string_offset, string, line_string, sup_string, attr_string,
-             attr_line_string, address, attr_address, unit_ranges, make_dwo},
+             attr_line_string, address, attr_address, unit_ranges, lookup_offset_id, make_dwo},
      src/read/str.rs : DebugStr::get_str, DebugLineStr::get_str, DebugStrOffsetsBase::default_for_encoding_and_file,
      src/read/line.rs : DebugLine::program (skip + LineProgramHeader::parse = LineRd.parse_header)
    over the existing models: AbbrevRd (abbreviation table), DieRd (unit header, cursor, next_dfs/next_entry,
@@ -310,3 +310,51 @@ Definition load_dwo_unit (dbg : bool) (dwo parent : dwarf) (skeleton : unit_t) (
   let d := make_dwo dwo parent in
   let* u := unit_new dbg d h in
   Ok (d, copy_relocated_attributes u skeleton).
+
+(* ------------------------------------------------------------------ Dwarf::lookup_offset_id
+   (src/read/endian_slice.rs Reader::lookup_offset_id, Section::lookup_offset_id,
+    LocationLists::lookup_offset_id, RangeLists::lookup_offset_id).
+   A ReaderOffsetId of a slice reader is an address. What the function reads of each section is only where it
+   lies: place s = (start address, length). Stream: c17.lookup *)
+Inductive sid : Type :=
+| SAbbrev | SAddr | SAranges | SInfo | SLine | SLineStr | SMacinfo | SMacro | SNames | SStr | SStrOffsets
+| STypes | SLoc | SLocLists | SRanges | SRngLists.
+
+(* EndianSlice::lookup_offset_id: `id >= self_id && id <= self_id + self_len` (unchecked `+` on u64) *)
+Definition slice_lookup (dbg : bool) (place : N * N) (id : N) : res (option N) :=
+  let* e := chk_add 64 dbg (fst place) (snd place) in
+  if (fst place <=? id) && (id <=? e) then Ok (Some (id - fst place)) else Ok None.
+
+(* the `.or_else` chain of Dwarf::lookup_offset_id; `self.locations` is debug_loc then debug_loclists,
+   `self.ranges` is debug_ranges then debug_rnglists *)
+Definition lookup_order : list sid :=
+  [SAbbrev; SAddr; SAranges; SInfo; SLine; SLineStr; SStr; SStrOffsets; STypes; SLoc; SLocLists; SRanges; SRngLists].
+
+Fixpoint lookup_first (dbg : bool) (place : sid -> N * N) (l : list sid) (id : N) : res (option (sid * N)) :=
+  match l with
+  | [] => Ok None
+  | s :: t =>
+      let* o := slice_lookup dbg (place s) id in
+      match o with
+      | Some off => Ok (Some (s, off))
+      | None => lookup_first dbg place t id
+      end
+  end.
+
+(* Dwarf::lookup_offset_id for a Dwarf whose supplementary file (if any) has no supplementary file itself *)
+Definition lookup_offset_id (dbg : bool) (place : sid -> N * N) (sup : option (sid -> N * N)) (id : N)
+  : res (option (bool * sid * N)) :=
+  let* o := lookup_first dbg place lookup_order id in
+  match o with
+  | Some (s, off) => Ok (Some (false, s, off))
+  | None =>
+      match sup with
+      | None => Ok None
+      | Some sp =>
+          let* o' := lookup_first dbg sp lookup_order id in
+          match o' with
+          | Some (s, off) => Ok (Some (true, s, off))
+          | None => Ok None
+          end
+      end
+  end.
